@@ -17,13 +17,22 @@ import (
 // CRLF line break is enforced.
 // Line break are inserted if a line is longer than 1000 characters (including CRLF).
 func StringToBody(str, encoding string) ([]byte, error) {
-	in := bufio.NewScanner(bytes.NewBufferString(str))
+	// Translate before splitting into lines, so that the line length limit
+	// applies to the encoded bytes and multi-byte characters are never split.
+	data := []byte(str)
+	translator, err := charset.TranslatorTo(encoding)
+	if err == nil {
+		var translated []byte
+		_, translated, err = translator.Translate(data, true)
+		data = append([]byte(nil), translated...)
+	}
+
+	in := bufio.NewScanner(bytes.NewReader(data))
 	// A line of any length must be accepted. With the default token size
 	// limit, the scanner would silently drop a long line and the rest of the body.
-	in.Buffer(nil, len(str)+1)
+	in.Buffer(nil, len(data)+1)
 	out := new(bytes.Buffer)
 
-	var err error
 	var line []byte
 	for in.Scan() {
 		line = in.Bytes()
@@ -41,13 +50,7 @@ func StringToBody(str, encoding string) ([]byte, error) {
 		}
 	}
 
-	translator, err := charset.TranslatorTo(encoding)
-	if err != nil {
-		return out.Bytes(), err
-	}
-
-	_, translated, err := translator.Translate(out.Bytes(), true)
-	return translated, err
+	return out.Bytes(), err
 }
 
 func min(a, b int) int {
